@@ -103,18 +103,18 @@ def findPath (cmp : Cmp) : Node → Key → Option Path
 
 end Node
 
-/-- `n` calls of `mem_free` -/
-def freeN : Nat → Mem → Mem
+/-- `n` calls of `mem_free` (of the table's allocator triple `tr`) -/
+def freeN (tr : Triple) : Nat → Mem → Mem
   | 0, m => m
-  | n + 1, m => freeN n m.free
+  | n + 1, m => freeN tr n (m.freeT tr)
 
 /-- the `mem_calloc` calls of `make_mid_subtree`: `todo` nodes still to allocate, `made` already
 allocated; a refusal runs `free_mid_chain` over the `made` nodes -/
-def allocChain : Nat → Nat → Mem → Bool × Mem
+def allocChain (tr : Triple) : Nat → Nat → Mem → Bool × Mem
   | 0, _, m => (true, m)
   | todo + 1, made, m =>
-    let a := m.alloc
-    if !a.1 then (false, freeN made a.2) else allocChain todo (made + 1) a.2
+    let a := m.allocT tr
+    if !a.1 then (false, freeN tr made a.2) else allocChain tr todo (made + 1) a.2
 
 /-- the node list `make_mid_subtree` builds for a postfix, with the entry at its end.
 `postfix_len = 0` (empty key into an empty table) still allocates `begin` and reads `key[0] = '\0'` -/
@@ -134,31 +134,31 @@ structure InsRes where
   mem  : Mem
 
 /-- `(*last_node)` exists: give it an entry if it has none, then overwrite key and value -/
-def setData (key : Key) (v : Nat) (c : Nat) (d : Option Entry) (l m r : Node) (mem : Mem) : InsRes :=
+def setData (tr : Triple) (key : Key) (v : Nat) (c : Nat) (d : Option Entry) (l m r : Node) (mem : Mem) : InsRes :=
   match d with
   | some _ => ⟨.ok, .node c (some (key, v)) l m r, false, mem⟩
   | none =>
-    let a := mem.alloc
+    let a := mem.allocT tr
     if !a.1 then ⟨.errAlloc, .node c none l m r, false, a.2⟩
     else ⟨.ok, .node c (some (key, v)) l m r, true, a.2⟩
 
 /-- `cc_tsttable_add` below the table header: descent of `get_last_node` on the remaining key `ks`,
 then either the existing node gets the entry or `make_mid_subtree` builds the postfix chain -/
-def Node.ins (cmp : Cmp) (key : Key) (v : Nat) : Node → Key → Mem → InsRes
+def Node.ins (tr : Triple) (cmp : Cmp) (key : Key) (v : Nat) : Node → Key → Mem → InsRes
   | .nil, ks, mem =>
-    let a := allocChain (chainLen ks) 0 mem
+    let a := allocChain tr (chainLen ks) 0 mem
     if !a.1 then ⟨.errAlloc, .nil, false, a.2⟩ else
-    let b := a.2.alloc                                   -- end->data = mem_alloc(sizeof entry)
-    if !b.1 then ⟨.errAlloc, .nil, false, freeN (chainLen ks) b.2⟩ else
+    let b := a.2.allocT tr                               -- end->data = mem_alloc(sizeof entry)
+    if !b.1 then ⟨.errAlloc, .nil, false, freeN tr (chainLen ks) b.2⟩ else
     ⟨.ok, mkChain (key, v) ks, true, b.2⟩
-  | .node c d l m r, [], mem => setData key v c d l m r mem
+  | .node c d l m r, [], mem => setData tr key v c d l m r mem
   | .node c d l m r, x :: xs, mem =>
     match cmp x c with
-    | .lt => let q := l.ins cmp key v (x :: xs) mem; ⟨q.st, .node c d q.node m r, q.inc, q.mem⟩
-    | .gt => let q := r.ins cmp key v (x :: xs) mem; ⟨q.st, .node c d l m q.node, q.inc, q.mem⟩
+    | .lt => let q := l.ins tr cmp key v (x :: xs) mem; ⟨q.st, .node c d q.node m r, q.inc, q.mem⟩
+    | .gt => let q := r.ins tr cmp key v (x :: xs) mem; ⟨q.st, .node c d l m q.node, q.inc, q.mem⟩
     | .eq => match xs with
-      | [] => setData key v c d l m r mem
-      | y :: ys => let q := m.ins cmp key v (y :: ys) mem; ⟨q.st, .node c d l q.node r, q.inc, q.mem⟩
+      | [] => setData tr key v c d l m r mem
+      | y :: ys => let q := m.ins tr cmp key v (y :: ys) mem; ⟨q.st, .node c d l q.node r, q.inc, q.mem⟩
 
 /-- result of `remove_eow_node` seen from one level of the tree -/
 structure RemRes where
@@ -168,56 +168,57 @@ structure RemRes where
   mem    : Mem
 
 /-- one turn of the pruning loop at an ancestor whose child slot was just cleared -/
-def rebuild (c : Nat) (d : Option Entry) (l m r : Node) (q : RemRes) : RemRes :=
-  if q.pruned && l.isNil && m.isNil && r.isNil && d.isNone then ⟨q.hit, .nil, true, q.mem.free⟩
+def rebuild (tr : Triple) (c : Nat) (d : Option Entry) (l m r : Node) (q : RemRes) : RemRes :=
+  if q.pruned && l.isNil && m.isNil && r.isNil && d.isNone then ⟨q.hit, .nil, true, q.mem.freeT tr⟩
   else ⟨q.hit, .node c d l m r, false, q.mem⟩
 
 /-- `remove_eow_node(table, node)` for the node at path `p` -/
-def Node.remAt : Node → Path → Mem → RemRes
+def Node.remAt (tr : Triple) : Node → Path → Mem → RemRes
   | .nil, _, mem => ⟨false, .nil, false, mem.check false⟩      -- dangling pointer
   | .node c d l m r, [], mem =>
     match d with
     | none => ⟨false, .node c none l m r, false, mem⟩          -- if (!node->eow) return;
     | some _ =>
-      let mem := mem.free                                       -- mem_free(node->data)
-      if l.isNil && m.isNil && r.isNil then ⟨true, .nil, true, mem.free⟩
+      let mem := mem.freeT tr                                   -- mem_free(node->data)
+      if l.isNil && m.isNil && r.isNil then ⟨true, .nil, true, mem.freeT tr⟩
       else ⟨true, .node c none l m r, false, mem⟩
-  | .node c d l m r, .L :: p, mem => let q := l.remAt p mem; rebuild c d q.node m r q
-  | .node c d l m r, .M :: p, mem => let q := m.remAt p mem; rebuild c d l q.node r q
-  | .node c d l m r, .R :: p, mem => let q := r.remAt p mem; rebuild c d l m q.node q
+  | .node c d l m r, .L :: p, mem => let q := l.remAt tr p mem; rebuild tr c d q.node m r q
+  | .node c d l m r, .M :: p, mem => let q := m.remAt tr p mem; rebuild tr c d l q.node r q
+  | .node c d l m r, .R :: p, mem => let q := r.remAt tr p mem; rebuild tr c d l m q.node q
 
 /-- `size_t` decrement -/
 def decSize (s : Nat) : Nat := if s = 0 then 2 ^ 64 - 1 else s - 1
 
 /-- `cc_tsttable_remove_all`: post-order walk (left, mid, right, then the node), `size -= 1` per entry -/
-def Node.freeAll : Node → Nat → Mem → Nat × Mem
+def Node.freeAll (tr : Triple) : Node → Nat → Mem → Nat × Mem
   | .nil, s, mem => (s, mem)
   | .node _ d l m r, s, mem =>
-    let a := l.freeAll s mem
-    let b := m.freeAll a.1 a.2
-    let c := r.freeAll b.1 b.2
+    let a := l.freeAll tr s mem
+    let b := m.freeAll tr a.1 a.2
+    let c := r.freeAll tr b.1 b.2
     match d with
-    | some _ => (decSize c.1, c.2.free.free)
-    | none => (c.1, c.2.free)
+    | some _ => (decSize c.1, (c.2.freeT tr).freeT tr)
+    | none => (c.1, c.2.freeT tr)
 
 /-! ### the table -/
 
 structure Table where
   size : Nat
   root : Node
+  triple : Triple := .conf      -- mem_alloc / mem_calloc / mem_free copied from the conf struct
   deriving Repr, DecidableEq
 
 namespace Table
 
-/-- `cc_tsttable_new_conf` -/
-def new (mem : Mem) : Stat × Option Table × Mem :=
-  let a := mem.alloc
-  if !a.1 then (.errAlloc, none, a.2) else (.ok, some { size := 0, root := .nil }, a.2)
+/-- `cc_tsttable_new_conf` with the given allocator triple (`cc_tsttable_new` passes the C library's) -/
+def new (tr : Triple) (mem : Mem) : Stat × Option Table × Mem :=
+  let a := mem.allocT tr
+  if !a.1 then (.errAlloc, none, a.2) else (.ok, some { size := 0, root := .nil, triple := tr }, a.2)
 
 /-- `cc_tsttable_add` -/
 def add (cmp : Cmp) (t : Table) (key : Key) (v : Nat) (mem : Mem) : Stat × Table × Mem :=
-  let q := t.root.ins cmp key v key mem
-  (q.st, { size := if q.inc then t.size + 1 else t.size, root := q.node }, q.mem)
+  let q := t.root.ins t.triple cmp key v key mem
+  (q.st, { t with size := if q.inc then t.size + 1 else t.size, root := q.node }, q.mem)
 
 /-- `cc_tsttable_get` -/
 def get (cmp : Cmp) (t : Table) (key : Key) : Stat × Option Nat :=
@@ -236,16 +237,16 @@ def remove (cmp : Cmp) (t : Table) (key : Key) (mem : Mem) : Stat × Option Nat 
     match (t.root.sub p).data? with
     | none => (.errKeyNotFound, none, t, mem)
     | some e =>
-      let q := t.root.remAt p mem
-      (.ok, some e.2, { size := if t.size > 0 then t.size - 1 else 0, root := q.node }, q.mem)
+      let q := t.root.remAt t.triple p mem
+      (.ok, some e.2, { t with size := if t.size > 0 then t.size - 1 else 0, root := q.node }, q.mem)
 
 /-- `cc_tsttable_remove_all` -/
 def removeAll (t : Table) (mem : Mem) : Table × Mem :=
-  let a := t.root.freeAll t.size mem
-  ({ size := a.1, root := .nil }, a.2)
+  let a := t.root.freeAll t.triple t.size mem
+  ({ t with size := a.1, root := .nil }, a.2)
 
 /-- `cc_tsttable_destroy` -/
-def destroy (t : Table) (mem : Mem) : Mem := (t.removeAll mem).2.free
+def destroy (t : Table) (mem : Mem) : Mem := (t.removeAll mem).2.freeT t.triple
 
 end Table
 
@@ -324,18 +325,20 @@ def iterNext (t : Table) (it : Iter) (mem : Mem) : NextRes :=
     else ⟨it.nextStat, none, it', mem⟩
   else iterLoop t.root it (iterFuel t.root) it.next it.cur mem
 
-/-- `cc_tsttable_iter_remove` -/
+/-- `cc_tsttable_iter_remove`; a repeated call for the same yielded entry (`advanced_on_remove` still
+set) is rejected like a call with nothing yielded (repair X7) -/
 def iterRemove (t : Table) (it : Iter) (wantOut : Bool) (mem : Mem) :
     Stat × Option Nat × Table × Iter × Mem :=
   match it.cur with
   | none => (.errKeyNotFound, none, t, it, mem)
   | some p =>
+    if it.adv then (.errKeyNotFound, none, t, it, mem) else
     let d := (t.root.sub p).data?
     let mem := if wantOut then mem.check d.isSome else mem   -- if (out) *out = node->data->value
     let nx := iterNext t it mem
     let it' := { nx.it with adv := true, nextStat := nx.st }
-    let q := t.root.remAt p nx.mem
-    (.ok, d.map (·.2), { size := decSize t.size, root := q.node }, it', q.mem)
+    let q := t.root.remAt t.triple p nx.mem
+    (.ok, d.map (·.2), { t with size := decSize t.size, root := q.node }, it', q.mem)
 
 /-- the entries a fresh iterator yields, in yield order (`foreach_key`, `foreach_value`) -/
 def iterAllLoop (t : Table) : Nat → Iter → Mem → List Entry × Mem
@@ -351,8 +354,31 @@ def iterAll (t : Table) (mem : Mem) : List Entry × Mem :=
 
 /-! ### histories -/
 
+open Spec.StrMap (IOp IOut) in
+/-- one call of an iterator session -/
+def Table.iterOp (cmp : Cmp) (t : Table) (it : Iter) (op : IOp) (mem : Mem) : IOut × Table × Iter × Mem :=
+  match op with
+  | .next => let r := iterNext t it mem
+             ({ st := r.st, key := r.out.map (·.1), val := r.out.map (·.2) }, t, r.it, r.mem)
+  | .remove w => let r := iterRemove t it w mem
+                 ({ st := r.1, val := r.2.1 }, r.2.2.1, r.2.2.2.1, r.2.2.2.2)
+  | .get k => let r := t.get cmp k; ({ st := r.1, val := r.2 }, t, it, mem)
+  | .contains k => ({ st := .ok, val := some (if t.containsKey cmp k then 1 else 0) }, t, it, mem)
+  | .size => ({ st := .ok, val := some t.size }, t, it, mem)
+
+open Spec.StrMap (IOp IOut) in
+def Table.iterRun (cmp : Cmp) (t : Table) (it : Iter) (ops : List IOp) (mem : Mem) :
+    List IOut × Table × Iter × Mem :=
+  match ops with
+  | [] => ([], t, it, mem)
+  | op :: ops =>
+    let s := t.iterOp cmp it op mem
+    let rs := Table.iterRun cmp s.2.1 s.2.2.1 ops s.2.2.2
+    (s.1 :: rs.1, rs.2)
+
 open Spec.StrMap (Op Out) in
-/-- one operation of a history; `add` installs its allocator schedule first -/
+/-- one operation of a history; `add` installs its allocator schedule first; `iterate` runs a whole
+iterator session from `iter_init` -/
 def Table.step (cmp : Cmp) (t : Table) (op : Op) (mem : Mem) : Out × Table × Mem :=
   match op with
   | .add k v sched => let r := t.add cmp k v (mem.begin sched); ({ st := some r.1 }, r.2.1, r.2.2)
@@ -362,30 +388,13 @@ def Table.step (cmp : Cmp) (t : Table) (op : Op) (mem : Mem) : Out × Table × M
   | .removeAll => let r := t.removeAll mem; ({}, r.1, r.2)
   | .size => ({ val := some t.size }, t, mem)
   | .enumerate => let r := iterAll t mem; ({ enum := r.1 }, t, r.2)
+  | .iterate prog => let r := t.iterRun cmp (iterInit t) prog mem; ({ iter := r.1 }, r.2.1, r.2.2.2)
 
 open Spec.StrMap (Op Out) in
 def Table.run (cmp : Cmp) (t : Table) (ops : List Op) (mem : Mem) : List Out × Table × Mem :=
   match ops with
   | [] => ([], t, mem)
   | op :: ops => let s := t.step cmp op mem; let rs := Table.run cmp s.2.1 ops s.2.2; (s.1 :: rs.1, rs.2.1, rs.2.2)
-
-open Spec.StrMap (IOp IOut) in
-/-- one call of an iterator program -/
-def Table.iterOp (t : Table) (it : Iter) (op : IOp) (mem : Mem) : IOut × Table × Iter × Mem :=
-  match op with
-  | .next => let r := iterNext t it mem
-             ({ st := r.st, key := r.out.map (·.1), val := r.out.map (·.2) }, t, r.it, r.mem)
-  | .remove w => let r := iterRemove t it w mem
-                 ({ st := r.1, val := r.2.1 }, r.2.2.1, r.2.2.2.1, r.2.2.2.2)
-
-open Spec.StrMap (IOp IOut) in
-def Table.iterRun (t : Table) (it : Iter) (ops : List IOp) (mem : Mem) : List IOut × Table × Iter × Mem :=
-  match ops with
-  | [] => ([], t, it, mem)
-  | op :: ops =>
-    let s := t.iterOp it op mem
-    let rs := Table.iterRun s.2.1 s.2.2.1 ops s.2.2.2
-    (s.1 :: rs.1, rs.2)
 
 /-! ### abstraction and invariant -/
 
